@@ -311,7 +311,7 @@ def function_hashes(run):
 # helpers on values
 
 def deep_concrete(v, depth=0):
-    if isinstance(v, (Sym, SObj, MBytes, InterpFunction, BoundMethod, SuperProxy)) or type(v).__name__ == 'MBytesIO':
+    if isinstance(v, (Sym, SObj, MBytes, InterpFunction, BoundMethod, SuperProxy)) or type(v).__name__ in ('MBytesIO', 'PartialModel'):
         return False
     if depth > 6:
         return True
@@ -551,6 +551,10 @@ def call_value(ctx, fn, args, kwargs):
             if isinstance(fn, types.MethodType) and is_repo_function(fn.__func__):
                 return stub(fn.__self__, *args, **kwargs)
             return stub(*args, **kwargs)
+    if isinstance(fn, libmodels.PartialModel):
+        kw = dict(fn.keywords)
+        kw.update(kwargs)
+        return call_value(ctx, fn.func, list(fn.args) + list(args), kw)
     if isinstance(fn, BoundMethod):
         f = fn.func
         if isinstance(f, (types.FunctionType, InterpFunction)):
